@@ -135,6 +135,39 @@ def fire(fl, engine, rule, degree, impl, contribs, fired, leak):
         fired[id(var)].append((var.term(tname), sanitize(d), impl))
 
 
+def weighted_value(fl, var, fired):
+    """Documented weighted average / sum of the grouped activations, computed here (not by the library's defuzzifier):
+    activations grouped by term name in first-occurrence order, degrees combined with the aggregation operator (sum if
+    none); z = membership(w) (Takagi-Sugeno, inverse Tsukamoto) or tsukamoto(w); an activation of degree 0 contributes nothing."""
+    d = var.defuzzifier
+    agg = var.aggregation or fl.UnboundedSum()
+    groups = {}
+    for t, deg, _ in fired:
+        if t.name not in groups:
+            groups[t.name] = [t, sanitize(deg)]
+        else:
+            groups[t.name][1] = sanitize(agg.compute(groups[t.name][1], deg))
+    kind = d.type.name
+    if kind == "Automatic":
+        kinds = set()
+        for t, _, _ in fired:
+            kinds.add("TakagiSugeno" if isinstance(t, (fl.Constant, fl.Linear, fl.Function)) else ("Tsukamoto" if t.is_monotonic() else "Automatic"))
+        if len(kinds) > 1:
+            raise TypeError("mixed kinds")
+        kind = kinds.pop() if kinds else "Automatic"
+    if not fired:
+        return math.nan
+    ws = np.float64(0.0)
+    w = np.float64(0.0)
+    for t, deg in groups.values():
+        z = np.float64(t.tsukamoto(deg) if kind == "Tsukamoto" else t.membership(deg))
+        if deg != 0.0:
+            ws = ws + np.float64(deg) * z
+        w = w + np.float64(deg)
+    avg = ws / w
+    return float(avg if type(d).__name__ == "WeightedAverage" else avg * w)
+
+
 def pipeline(fl, engine, leak=False):
     """Expected output values of Engine.process() for the engine's current inputs, previous values and flags."""
     contribs = {id(v): [] for v in engine.output_variables}
@@ -190,8 +223,11 @@ def pipeline(fl, engine, leak=False):
             if not var.enabled:
                 out.append(float(np.asarray(var.value, dtype=float).ravel()[-1]))
                 continue
-            agg = fl.Aggregated(var.name, var.minimum, var.maximum, var.aggregation, [fl.Activated(t, d, i) for t, d, i in fired[id(var)]])
-            z = float(np.asarray(var.defuzzifier.defuzzify(agg, var.minimum, var.maximum), dtype=float).ravel()[-1])
+            if isinstance(var.defuzzifier, fl.WeightedDefuzzifier):
+                z = weighted_value(fl, var, fired[id(var)])
+            else:
+                agg = fl.Aggregated(var.name, var.minimum, var.maximum, var.aggregation, [fl.Activated(t, d, i) for t, d, i in fired[id(var)]])
+                z = float(np.asarray(var.defuzzifier.defuzzify(agg, var.minimum, var.maximum), dtype=float).ravel()[-1])
             if z != z and var.lock_previous:
                 z = float(np.asarray(var.value, dtype=float).ravel()[-1])
             if z != z and not math.isnan(var.default_value):
